@@ -92,8 +92,8 @@ REG["C05"] = {
 
 REG["C14"] = {
     "units": ["timeouts"], "kani_units": ["c14_timeout"],
-    "thorough_extra": ["replay"],
-    "quick_extra": ["replay"],
+    "thorough_extra": ["replay", "e2e"],
+    "quick_extra": ["replay", "e2e"],
     "scope": "PARTIAL: (1) how the document limit is resolved — the three limit-resolving expressions of StatefulExecutor::execute_all and the one of the "
              "single-script executor, extracted verbatim (@expr): configured value or the default, an explicit 0 means no deadline, any other value means a deadline, and with a "
              "deadline there is always a remaining budget (an expired deadline never turns into 'no limit'); (2) 'whichever limit is reached first' — the ordering used by StatefulExecutor::execute_all to pick the effective timeout "
@@ -321,8 +321,8 @@ REG["C19"] = {
 
 REG["C15"] = {
     "units": ["skipcode"],
-    "thorough_extra": ["replay"],
-    "quick_extra": ["replay"],
+    "thorough_extra": ["replay", "e2e"],
+    "quick_extra": ["replay", "e2e"],
     "scope": "PARTIAL (small) — which exit code is the skip code: TestCaseConfig::get_skip_document_code returns the configured skip_document_code, else 80; the Markdown and the Cram "
              "format defaults both set 80.",
     "assumptions": ["derived Default of TestCaseConfig (R39 shim)"],
